@@ -1,6 +1,6 @@
 """C13 - completed operations leave nothing behind."""
 from facts import walk, callee_of, call_args, loc
-import hirq, anchors
+import hirq, anchors, absx, sem, driver
 
 EXPLANATION = ("K1 pairing: every removal of a routing entry in the driver loop (result delivered, search done / receiver gone, scrub, "
                "abandon) is accompanied on the same control path by the release of the same message ID from the in-use set; K2 the "
@@ -66,6 +66,32 @@ def run(ctx):
     ctx.add('K3.abandoned-id-released', 'abandon arm', loc(req['body']),
             any(hirq.strip_casts(L.origin(r['args'][0])) == ab_payload for r in ab_rel),
             'the abandoned operation\'s message ID is not released')
+    # K2 / K3 on the enumerated paths of the request arm: whenever an Abandon was written to the socket, its own ID (which the
+    # server never answers) is released, both routing entries of the abandoned ID are dropped, and the abandoned ID is released
+    # at least when one of those entries existed
+    REQ = ('variant', driver.ARM, 'Some', 0)
+    OWN, OP = ('field', REQ, '0'), ('field', REQ, '1')
+    PAY = ('variant', OP, 'LdapOp::Abandon', 0)
+    aouts, _I = driver.arm_paths(C, 'request')
+    n_ab = 0
+    for o in aouts:
+        if o.kind not in ('val', 'cont', 'brk') or absx.pc_variant(o.st.pc, lambda v: v == OP, 'LdapOp::Abandon') is not True:
+            continue
+        n_ab += 1
+        rel = [args[1] for i, name, args, node in driver.map_calls(C, o, 'idset', ('remove',))]
+        un_r = [(args[1], node) for i, name, args, node in driver.map_calls(C, o, 'result', ('remove',))]
+        un_s = [(args[1], node) for i, name, args, node in driver.map_calls(C, o, 'search', ('remove',))]
+        sig = ','.join(('' if t else '!') + absx.fmt(a)[-30:] for a, t in o.st.pc if a[0] == 'is' and sem.has(a[1], lambda x: x[0] == 'call' and x[1].endswith('::remove')))
+        ctx.add('K2.abandon-own-id-released', 'abandon arm|' + (sig or 'plain'), loc(req['body']), OWN in rel,
+                'a path of the Abandon arm does not release the Abandon request\'s own message ID (never answered by the server): it stays reserved forever')
+        ctx.add('K3.abandon-unroutes', 'paths|' + (sig or 'plain'), loc(req['body']), any(k == PAY for k, n in un_r) and any(k == PAY for k, n in un_s),
+                'a path of the Abandon arm does not remove both routing entries of the abandoned ID (a waiting caller would never be released)')
+        had_entry = any(sem.succeeded(o, lambda v, n=n: sem.has(v, lambda x: x[0] == 'call' and x[3] == n.get('id'))) for k, n in un_r + un_s)
+        untested = not any(sem.tested(o, lambda v, n=n: sem.has(v, lambda x: x[0] == 'call' and x[3] == n.get('id'))) for k, n in un_r + un_s)
+        if had_entry or untested:
+            ctx.add('K3.abandoned-id-released', 'paths|' + (sig or 'plain'), loc(req['body']), PAY in rel,
+                    'the abandoned operation\'s message ID is not released on a path where its routing entry was dropped')
+    ctx.floor('K2', 'Abandon paths of the request arm', n_ab, 1)
     for w in ('result', 'search'):
         ok = any(in_abandon(u) and ww == w and hirq.strip_casts(L.origin(u['args'][0])) == ab_payload for u, uc, ww in unroutes)
         ctx.add('K3.abandon-unroutes', w, loc(req['body']), ok,
